@@ -575,6 +575,17 @@ def compare(ctx, op, a, b):
                         res = False
                         break
                 return res if isinstance(op, ast.Eq) else not res
+    ca, cb = _array_cell(ctx, a), _array_cell(ctx, b)
+    if (ca is not None or cb is not None) and type(op) in _NCMP and \
+            (ca is not None or not isinstance(a, Ref)) and (cb is not None or not isinstance(b, Ref)) and a is not None and b is not None:
+        # numpy: a comparison with an array broadcasts element-wise and yields a boolean array (whose truth value is an error
+        # for more than one element)
+        n = len((ca if ca is not None else cb).items)
+        if ca is not None and cb is not None and len(ca.items) != len(cb.items):
+            raise Unsupported("comparison of arrays of different length")
+        xs = ca.items if ca is not None else [a] * n
+        ys = cb.items if cb is not None else [b] * n
+        return make_array(ctx, [compare(ctx, op, x, y) for x, y in zip(xs, ys)], dtype="bool")
     if isinstance(a, Ref) or isinstance(b, Ref):
         if isinstance(op, (ast.Eq, ast.NotEq)):
             r = heap_equal(ctx, a, b)
